@@ -357,7 +357,7 @@ PROPS = {
              "h1-h6 is established by the document-level oracle run (it is a fact about parser+renderer, not about the generator). Proviso of the property: "
              "no explicit attribute syntax (two headings may carry the same explicit {#id}).",
         technique="Lean 4 theorems over a hand-written model of ids.Generate/Put; differential correspondence against the Go implementation at function and document level; HTML-level oracle",
-        components=["ids"],
+        components=["ids", "converth"],
         explanation="Theorems over all heading-text lists / all Generate-Put sequences about the Lean model GM.Model.Ids (slug, fallback, suffix probing with a "
                     "proved bound, per-document table). Component ids ties the model to parser.NewContext().IDs() (all Generate sequences of <=5 values and "
                     "Generate/Put sequences of <=4 ops over 9 adversarial values, + random) and to the call sequence the heading parsers really make on documents "
@@ -620,3 +620,40 @@ PROPS["C01"]["claim"] += (" Renderer side of the composition: the outcome `rende
     "(convert_no_render_panic: no renderer panic on parser output); a Segment.Value panic in a node renderer is reduced "
     "(convert_no_value_panic_partial) to two open facts: segment ranges of raw blocks' info / closure lines in the block store and non-negative padding "
     "of inline segments.")
+
+# ---- session 4, package headingids (notes/status_headingids.md): C15 end to end on the composed model convertH ----
+PROPS["C15"]["claim"] += (" END TO END: GM.ConvertH.convertH true (convertCore + parser.WithAutoHeadingID: the AutoHeadingID blocks of the ATX and Setext "
+    "Close functions, generateAutoHeadingID, the per-parse id table, SetAttribute, renderHeading/RenderAttributes; tied by component `converth` on whole "
+    "documents, HTML byte for byte) - for EVERY byte string, unconditionally: the attributes on headings are exactly the generated ids, non-empty, over "
+    "[a-z0-9-], distinct per node, exactly Ids.run of the Close-order texts (e2e_heading_ids_table_fed_in_close_order), and the option leaves the block "
+    "phase unchanged (e2e_converth_block_phase_projects, e2e_converth_off_is_core, e2e_converth_never_loops); under the decidable driver hypotheses "
+    "headingsClosedOK / headingsOnceOK (every Heading of the final tree was handed to Close, once; evaluated on every tie case, never false; stated as "
+    "HeadingsAlwaysClosed / HeadingsAlwaysOnce, not proved): every heading has one id (e2e_every_heading_has_id), all ids pairwise distinct "
+    "(e2e_heading_ids_pairwise_distinct), and the literal start tag <hN id=\"v\"> is a contiguous part of the HTML (e2e_heading_ids_rendered).")
+PROPS["C15"]["explanation"] = PROPS["C15"]["explanation"].replace("Presence", "Presence (a theorem of the composed model under headingsClosedOK, and independently checked by the oracle of `converth`)", 1)
+
+# ---- session 4, packages tnopanic / wf0 / consts (notes/status_tnopanic.md, status_wf0.md, status_consts.md) ----
+PROPS["C01"]["claim"] += (" Block phase WITH the link-reference transformer (GM.Props.ConvertNP, re-exported): the transformer's scan is TOTAL (no Go panic, "
+    "no monitor) on the lines it really gets - well-formed lines WITH paddings, none blank - and the ranges it hands to its second loop are adjacent "
+    "from line 0 on, non-empty and inside the paragraph (link_reference_scan_total_and_adjacent; link_reference_ranges_adjacent turns the formerly "
+    "stated GM.Props.Convert.ScanRangesAdjacent into a theorem; link_reference_second_loop_total, link_reference_transform_total); the whole driver with "
+    "transformers returns a store or the run-time guard's own outcome - no Go panic, no contract monitor - for every source WITHOUT a setext underline "
+    "(block_phase_no_go_panic_partial, block_phase_with_transformers_total_partial, monitors_never_fire_partial; NoUnderline is decidable and holds of 605 "
+    "of the 652 spec.json examples); the RequireParagraph path behind a setext underline is open. total_of_guard_irrelevant is the composition step with "
+    "'the guard never fires'. Hand-over to the inline phase (GM.Props.Wf0, re-exported): for the driver without transformers every inline-bearing block "
+    "has well-formed lines (inline_handover_wellformed); what remains for WF0 is padding 0 of those segments (inline_handover_remaining). The constants "
+    "the block / inline models embody (regular expressions, tag list, limits, marker bytes) are tied to the source on every run (consts_* obligations "
+    "over the regenerated GM.Gen.Consts).")
+PROPS["C01"]["assumptions"] = list(PROPS["C01"].get("assumptions", [])) + [
+    "no line handed to the paragraph transformer is blank and the lines are well-formed (hypothesis of the transformer totality theorems; evaluated on every "
+    "document of component convert by a probe transformer: clauses assumption:transform-line-blank, transform-lines-not-wellformed - never fired)"]
+PROPS["C05"]["claim"] += (" ORDER clause of (c) (GM.Props.Wf0, re-exported): for EVERY byte string every non-raw block of the final store of the block phase "
+    "(all kinds but CodeBlock, FencedCodeBlock, HTMLBlock) has its lines in increasing order, in range, non-empty (block_lines_ordered, "
+    "block_lines_in_range_and_ordered, block_lines_wellformed); for the three raw kinds the order clause is open (preserveLeadingTab moves a segment's "
+    "start one byte back): block_lines_order_remaining states exactly what is left.")
+PROPS["C02"]["claim"] += (" The constants the implementation-side models embody - the eighteen regular expressions goldmark compiles (source text), the HTML "
+    "block tag list, numeric limits, marker bytes - are re-extracted from /repo on every run and compared by the kernel with what the models were written "
+    "against (consts_* obligations, package consts); a changed constant breaks the obligation and the check names it.")
+PROPS["C03"]["claim"] += (" Every literal the node renderers write is tied to the renderer model's on every run (consts_rendered_literals_tied, consts_named_constants_tied).")
+PROPS["C17"]["claim"] += (" The four delimiter-row regular expressions are tied to the hand-written matchers' source text on every run (consts_table_regexps_tied).")
+PROPS["C11"]["claim"] += (" The extensions' own regular expressions / openers are tied on every run (consts_extension_regexps_tied) and goldmark compiles exactly the 18 known expressions (consts_regexp_inventory_complete).")
